@@ -162,7 +162,7 @@ def run_fvss(ck, prop, tier, vh, seed):
         k = 0
         for (n, t) in shapes:
             for c in cases:
-                c2 = dict(c, id='fvss-%d-%d-%d' % (n, t, k), n=n, t=t, seed=seed * 1000003 + k)
+                c2 = dict(c, id='fvss-%d-%d-%d' % (n, t, k), n=n, t=t, seed=vlib.jseed(seed, k))
                 k += 1
                 f.write(json.dumps(c2) + '\n')
     rp = os.path.join(vlib.subdir('results'), 'fvss.ndjson')
